@@ -4,6 +4,7 @@ import Driver.MType
 import Driver.Attr
 import Driver.Msg
 import Driver.Xor
+import Driver.Bld
 open Driver
 
 def dispatch (l : Line) : Verdict :=
@@ -13,6 +14,7 @@ def dispatch (l : Line) : Verdict :=
   | "attr" => AttrFam.handle l
   | "msg" => MsgFam.handle l
   | "xor" => XorFam.handle l
+  | "bld" => BldFam.handle l
   | f => .bad s!"unknown family {f}" ""
 
 partial def loop (h : IO.FS.Stream) (out : IO.FS.Stream) : IO Unit := do
